@@ -31,11 +31,11 @@ theorem packLoop_spec (rest : List α) (n : Nat) (st : PState α) (hc : Consiste
       st.feature.flatten ++ cur st n ++ rest ++ List.replicate (padLen (n + rest.length)) 0 := by
   induction rest generalizing n st with
   | nil =>
-    simp only [packLoop, finish, lanes, List.length_nil, Nat.add_zero, List.append_nil, cur, padLen]
+    simp only [packLoop, finish, lanes, Gen.FEATURE_LANES_SIZE, List.length_nil, Nat.add_zero, List.append_nil, cur, padLen]
     by_cases h0 : n % 8 = 0
     · by_cases hn : n = 0
       · obtain ⟨hp, ha⟩ := hc.z0 hn
-        simp [hp, ha, hn, zeros, lanes]
+        simp [hp, ha, hn, zeros, lanes, Gen.FEATURE_LANES_SIZE, Gen.FEATURE_LANES_SIZE]
       · have hp := hc.zfull h0 (by omega)
         simp [hp, h0, hn]
     · obtain ⟨hp, hd⟩ := hc.zpart h0
@@ -53,7 +53,7 @@ theorem packLoop_spec (rest : List α) (n : Nat) (st : PState α) (hc : Consiste
     -- the accumulator before writing
     set acc0 : List α := if part = 0 then zeros else st.acc with hacc0
     have hlen0 : acc0.length = 8 := by
-      by_cases h : part = 0 <;> simp [hacc0, h, zeros, lanes, hc.len]
+      by_cases h : part = 0 <;> simp [hacc0, h, zeros, lanes, Gen.FEATURE_LANES_SIZE, hc.len]
     set acc1 := acc0.set part x with hacc1
     have hlen1 : acc1.length = 8 := by simp [hacc1, hlen0]
     have hset : acc1 = acc0.take part ++ x :: acc0.drop (part + 1) := set_eq acc0 part x (by omega)
@@ -64,7 +64,7 @@ theorem packLoop_spec (rest : List α) (n : Nat) (st : PState α) (hc : Consiste
       · simp [← hpart, h, hacc0]
     have hdrop0 : acc0.drop part = List.replicate (8 - part) 0 := by
       by_cases h : part = 0
-      · simp [hacc0, h, zeros, lanes]
+      · simp [hacc0, h, zeros, lanes, Gen.FEATURE_LANES_SIZE, Gen.FEATURE_LANES_SIZE]
       · simp only [hacc0, h, if_false]
         exact (hc.zpart (by omega)).2
     have hdrop1 : acc0.drop (part + 1) = List.replicate (8 - part - 1) 0 := by
@@ -73,7 +73,7 @@ theorem packLoop_spec (rest : List α) (n : Nat) (st : PState α) (hc : Consiste
     by_cases h7 : part = 7
     · -- block completed
       have hstep : packStep st n x = { feature := st.feature ++ [acc1], acc := acc1, part := 8 } := by
-        simp [packStep, lanes, ← hpart, h7, hacc1, hacc0]
+        simp [packStep, lanes, Gen.FEATURE_LANES_SIZE, ← hpart, h7, hacc1, hacc0]
       rw [hstep]
       have hc' : Consistent ({ feature := st.feature ++ [acc1], acc := acc1, part := 8 } : PState α) (n + 1) :=
         { len := hlen1, z0 := by omega, zfull := fun _ _ => rfl, zpart := by omega }
@@ -86,7 +86,7 @@ theorem packLoop_spec (rest : List α) (n : Nat) (st : PState α) (hc : Consiste
       rw [this]
       simp [List.append_assoc]
     · have hstep : packStep st n x = { feature := st.feature, acc := acc1, part := part } := by
-        simp [packStep, lanes, ← hpart, h7, hacc1, hacc0]
+        simp [packStep, lanes, Gen.FEATURE_LANES_SIZE, ← hpart, h7, hacc1, hacc0]
       rw [hstep]
       have h1 : (n + 1) % 8 = part + 1 := by omega
       have hc' : Consistent ({ feature := st.feature, acc := acc1, part := part } : PState α) (n + 1) :=
